@@ -39,8 +39,10 @@ Print Assumptions C16_from_acgt_paths_agree.
 
 (* what is stored is exactly the list of bases, and the representation invariant holds
    (ceil(len/32) blocks, unused lanes of the last block zero) *)
-Theorem C16_stored_bases : forall l, wf_dna l -> ds_to_bytes (ds_of_dna l) = Some l /\ ds_inv (ds_of_dna l) = true.
-Proof. intros l H. split; [exact (ds_to_bytes_spec l H) | exact (ds_of_dna_inv l H)]. Qed.
+Theorem C16_stored_bases : forall l, wf_dna l ->
+  ds_to_bytes (ds_of_dna l) = Some l /\ ds_inv (ds_of_dna l) = true /\
+  dna_of_storage (ds_storage (ds_of_dna l)) (length l) = l.
+Proof. intros l H. split; [exact (ds_to_bytes_spec l H) | split; [exact (ds_of_dna_inv l H) | exact (dna_of_storage_spec l H)]]. Qed.
 Print Assumptions C16_stored_bases.
 
 Theorem C16_from_acgt_inv : forall bytes avx2, is_bytes bytes ->
@@ -73,6 +75,9 @@ Print Assumptions C16_dna_only_runs_bytes.
 Theorem C16_runs_maximal : forall text, runs_of ascii_valid text (runs ascii_valid text).
 Proof. exact (runs_maximal ascii_valid). Qed.
 Print Assumptions C16_runs_maximal.
+Theorem C16_runs_unique : forall text rs, runs_of ascii_valid text rs -> rs = runs ascii_valid text.
+Proof. exact (runs_unique ascii_valid). Qed.
+Print Assumptions C16_runs_unique.
 (* the code before the repair: only for ASCII text; refuted otherwise ("GŁG" -> ["GAG"]) *)
 Theorem C16_dna_only_runs_old : forall text, Forall (fun c => c < 128) text ->
   from_dna_only_string_old text = Some (map ds_of_dna (acgt_runs text)).
